@@ -140,11 +140,45 @@ class IdealSeq:
             return self.cur_next not in self.ids
         return False
 
+    def inv_expect(self):
+        """`inv` (harness/seq.c): name -> acceptable `result:errno` strings; a trailing `*` accepts
+        any errno (calls for which the documentation names none)"""
+        n, full = len(self.s), self.max > 0 and len(self.s) >= self.max
+        empty = ["null:ENOENT"] if n == 0 else []
+        rng = ["null:ERANGE"] + empty
+        first = ["data%s:*" % hx(self.s[0])] if n else ["null:ERANGE", "null:ENOENT"]
+        arr = ["data%s:*" % hx(b"".join(self.s))] if n else ["null:ENOENT"]
+        sets = {"setsame": ["%d:0" % self.max], "sethuge": ["%d:0" % self.max], "setback": ["18446744073709551615:0"]}
+        if self.kind == "list":
+            e = {k: ["false:EINVAL"] for k in ("addnull", "addfirstnull", "addlastnull", "addsize0", "addfirstsize0", "addlastsize0")}
+            for k in ("addabove", "addbelow"):
+                e[k] = ["false:ERANGE"] + (["false:ENOBUFS"] if full else [])
+            for k in ("getabove", "getbelow", "popabove", "popbelow"):
+                e[k] = rng
+            for k in ("removeabove", "removebelow"):
+                e[k] = ["false:ERANGE"] + (["false:ENOENT"] if n == 0 else [])
+            e.update({"nextnull0": ["false:*"], "nextnull1": ["false:*"], "debugnull": ["false:EIO"],
+                      "getfirstnosize": first, "toarraynosize": arr})
+            e.update(sets)
+            return e
+        if self.kind in ("queue", "stack"):
+            e = {k: ["false:EINVAL"] for k in ("pushnull", "pushsize0", "pushstrnull")}
+            for k in ("getabove", "getbelow", "popabove", "popbelow"):
+                e[k] = rng
+            e.update({"debugnull": ["false:*"], "getnosize": first})
+            e.update(sets)
+            return e
+        e = {k: ["false:EINVAL"] for k in ("addnull", "addsize0", "addstrempty", "addstrfempty")}
+        e.update({"debugnull": ["false:EIO"], "toarraynosize": arr})
+        return e
+
     # ---- operations
     def apply(self, w):
         op = w[0]
         k = self.kind
         res = None
+        if op == "inv":
+            return None, self.state()       # judged by Judge through inv_expect()
         if k == "list":
             res = self._apply_list(op, w)
         elif k in ("queue", "stack"):
@@ -259,6 +293,8 @@ class IdealSeq:
             return self._add(-1, cstr(unhex(w[1])))
         if op == "addstrf":
             return self._add(-1, cstr(unhex(w[1])) + b"=" + str(int(w[2])).encode())
+        if op == "addstrfs":
+            return self._add(-1, cstr(unhex(w[1])))
         if op == "size":
             return ["n %d" % len(self.s)]
         if op == "datasize":
@@ -313,10 +349,26 @@ class IdealVec:
             raise Unsafe("element argument is not objsize bytes long")
         return d
 
+    def inv_expect(self):
+        n = len(self.s)
+        rng = lambda p: [p + ":ERANGE"] + ([p + ":ENOENT"] if n == 0 else [])
+        e = {k: ["false:EINVAL"] for k in ("addnull", "addfirstnull", "addlastnull")}
+        e.update({"addabove": ["false:ERANGE"], "addbelow": ["false:ERANGE"]})
+        for k in ("getabove", "getbelow", "popabove", "popbelow"):
+            e[k] = rng("null")
+        for k in ("setabove", "setbelow", "removeabove", "removebelow"):
+            e[k] = rng("false")
+        e.update({"nextnull0": ["false:*"], "nextnull1": ["false:*"], "debugnull": ["false:EIO"],
+                  "toarraynosize": ["data%s:*" % hx(b"".join(self.s))] if n else ["null:ENOENT"],
+                  "resizesame": ["true:*"]})
+        return e
+
     def apply(self, w):
         op = w[0]
         n = len(self.s)
         res = None
+        if op == "inv":
+            return None, self.state()
         if op == "addfirst":
             res = self._add(0, self._elem(w[1]))
         elif op == "addlast":
@@ -448,6 +500,7 @@ class Judge:
             return None
         if w[0] == "new":
             self.dead = False
+            self.walked = []        # the harness zeroes its cursor with every new container
             if "KEPT-BAD" in api:
                 return "a copy handed out earlier changed when the container was released: `%s`" % api[:80]
             if self.mode == "seq":
@@ -491,12 +544,29 @@ class Judge:
             if self.ledger:
                 return self._ledger(priv)
             return None
+        if w[0] == "inv":
+            d = check_inv(ideal.inv_expect(), got_res)
+            if d:
+                return "`inv` on %s: %s" % (_short(ideal.s), d)
+        if w[0] == "reset":
+            self.walked = []
+        walk_judged = w[0] == "next" and not ideal.modified
         try:
             before = list(ideal.s)
             res, state = ideal.apply(w)
         except Unsafe:
             self.dead = True     # outside the API contract until the next `new`: nothing to judge
             return None
+        if walk_judged and getattr(self, "walked", None) is not None:
+            # walk completeness: between `reset` and the first end-of-walk report every element is
+            # delivered exactly once, in order - also when calls in between failed and were retried
+            g = got_res.split(" idx=")[0]
+            if g.startswith("data "):
+                self.walked.append(unhex(g[5:]))
+            elif g.startswith("false ENOENT"):
+                if self.walked != before:
+                    return "the walk since `reset` delivered %s, the contents are %s" % (_short(self.walked), _short(before))
+                self.walked = None
         if res is not None and got_res not in res:
             return "`%s` on %s: expected %s, got `%s`" % (op[:80], _short(before), " or ".join("`%s`" % r[:120] for r in res), got_res[:160])
         if got_state != state:
@@ -505,6 +575,28 @@ class Judge:
         if self.ledger:
             return self._ledger(priv)
         return None
+
+
+def check_inv(expect, got):
+    """got: `inv name=result:errno ...`"""
+    toks = got.split()
+    if not toks or toks[0] != "inv":
+        return "malformed result `%s`" % got[:80]
+    seen = {}
+    for t in toks[1:]:
+        k, _, v = t.partition("=")
+        seen[k] = v
+    for k, acc in expect.items():
+        if k not in seen:
+            return "call `%s` is missing from the result" % k
+        v = seen[k]
+        ok = any(v == a or (a.endswith(":*") and v.startswith(a[:-1])) for a in acc)
+        if not ok:
+            return "call `%s` returned `%s`, documented: %s" % (k, v[:80], " or ".join("`%s`" % a[:80] for a in acc))
+    extra = [k for k in seen if k not in expect]
+    if extra:
+        return "unexpected calls %s" % extra
+    return None
 
 
 def judge_stream(ops, impl_lines, mode, ledger=False):
